@@ -127,7 +127,8 @@ Definition warned (W : world) (f : vfile) (refs : list prog) (i : N) : Prop :=
 
 (* ---- removing an import statement from the file ---- *)
 Definition remove_import (i : N) (f : vfile) : vfile :=
-  mkV (vf_path f) (filter (fun pi => negb (N.eqb (fst pi) i)) (vf_imports f)) (vf_names f) (vf_exts f).
+  mkV (vf_path f) (filter (fun pi => negb (N.eqb (fst pi) i)) (vf_imports f)) (vf_names f) (vf_exts f)
+      (filter (fun p => negb (N.eqb p i)) (vf_weak f)).
 
 (* what a reference resolves to: its result and, for every lookup it made, which file answered
    with which element (the marks are bookkeeping, not part of it) *)
